@@ -36,6 +36,20 @@ pub fn set_worker(i: usize) {
     WORKER.with(|w| w.set(i));
 }
 
+/// The trap is armed only while code under test runs (between `enter_sut` and
+/// `leave_sut`, which `env::guarded` brackets every call into lzma-rs with):
+/// the harness's own big allocations (statistics of a long run) are not bombs.
+pub fn enter_sut() -> bool {
+    IN_SUT.with(|f| f.replace(true))
+}
+pub fn leave_sut(prev: bool) {
+    IN_SUT.with(|f| f.set(prev));
+}
+#[inline]
+fn armed() -> bool {
+    IN_SUT.try_with(|f| f.get()).unwrap_or(false)
+}
+
 pub struct Meter;
 
 thread_local! {
@@ -43,6 +57,7 @@ thread_local! {
     static PEAK: Cell<isize> = const { Cell::new(0) };
     static BIGGEST: Cell<usize> = const { Cell::new(0) };
     static WORKER: Cell<usize> = const { Cell::new(usize::MAX) };
+    static IN_SUT: Cell<bool> = const { Cell::new(false) };
 }
 
 #[inline]
@@ -70,7 +85,7 @@ fn sub(n: usize) {
 
 unsafe impl GlobalAlloc for Meter {
     unsafe fn alloc(&self, layout: Layout) -> *mut u8 {
-        if layout.size() > TRAP_LIMIT {
+        if layout.size() > TRAP_LIMIT && armed() {
             trap(layout.size());
         }
         let p = System.alloc(layout);
@@ -84,7 +99,7 @@ unsafe impl GlobalAlloc for Meter {
         sub(layout.size());
     }
     unsafe fn alloc_zeroed(&self, layout: Layout) -> *mut u8 {
-        if layout.size() > TRAP_LIMIT {
+        if layout.size() > TRAP_LIMIT && armed() {
             trap(layout.size());
         }
         let p = System.alloc_zeroed(layout);
@@ -94,7 +109,7 @@ unsafe impl GlobalAlloc for Meter {
         p
     }
     unsafe fn realloc(&self, ptr: *mut u8, layout: Layout, new_size: usize) -> *mut u8 {
-        if new_size > TRAP_LIMIT {
+        if new_size > TRAP_LIMIT && armed() {
             trap(new_size);
         }
         let p = System.realloc(ptr, layout, new_size);
